@@ -242,12 +242,16 @@ func H_C06_units() {
 			k := vCatch(func() { r = z.shr(x, uint(s)) })
 			vAssert("C04.nopanic", k == 0)
 			vAssert("C06.unit.shr", vAnd(sEq(sFromWords(r), sDivPow10(X, s)), wordsOK(r)))
-			vAssert("C06.unit.norm", vOr(len(r) == 0, r[maxInt(len(r)-1, 0)] != 0))
+			if len(r) > 0 {
+				vAssert("C06.unit.norm", r[len(r)-1] != 0)
+			}
 		} else {
 			k := vCatch(func() { l = z.shl(x, uint(s)) })
 			vAssert("C04.nopanic", k == 0)
 			vAssert("C06.unit.shl", vAnd(sEq(sFromWords(l), sMulPow10(X, s)), wordsOK(l)))
-			vAssert("C06.unit.norm", vOr(len(l) == 0, l[maxInt(len(l)-1, 0)] != 0))
+			if len(l) > 0 {
+				vAssert("C06.unit.norm", l[len(l)-1] != 0)
+			}
 		}
 	}
 	vReach("end")
